@@ -16,7 +16,7 @@ def decode(string):
   return unsafe_decode(string)
 
 def validate_encoded(string):
-  if not re.match(r"^[!-~]+[+-]( [!-~]+[+-])*$", string):
+  if not re.match(r"^[!-~]+[+-]( [!-~]+[+-])*\Z", string):
     raise gfapy.FormatError(
       "{} is not a valid list of GFA2 segment names ".format(repr(string))+
       "and orientations")
@@ -28,7 +28,7 @@ def validate_decoded(iterable):
             "the list contains an object of class {}\n".format(type(elem))+
             "(accepted classes: gfapy.OrientedLine)")
     elem.validate()
-    if not re.match(r"^[!-~]+$", elem.name):
+    if not re.match(r"^[!-~]+\Z", elem.name):
       raise gfapy.FormatError(
         "the list contains an invalid GFA2 identifier {}\n".format(elem.name)+
         "(it contains spaces and/or non-printable characters)")
